@@ -143,6 +143,25 @@ func applyIgnore(bt *gen.Built, lineID int, c ignCase, code string, rng *base.Ra
 			// with a doc comment the lead simply becomes the first line of the doc group
 			desc += "+doc"
 		}
+	case "trailing-on-closing-line":
+		// the comment trails the line that CLOSES the compound or multi-line statement containing the diagnostic
+		// ("}" / ")" / "} else {"): its scope is that line, not the statement that ends there
+		if c.where != "in" {
+			return false, ""
+		}
+		var closing *gen.Line
+		for i := len(chain) - 1; i >= 1 && closing == nil; i-- {
+			n := chain[i].N
+			if len(n.Post) > 0 && n.Post[len(n.Post)-1].Trail == nil && n.Post[len(n.Post)-1] != target {
+				closing = n.Post[len(n.Post)-1]
+			} else if len(n.Pre) > 1 && n.Pre[len(n.Pre)-1].Trail == nil && n.Pre[len(n.Pre)-1] != target {
+				closing = n.Pre[len(n.Pre)-1] // last line of a multi-line statement
+			}
+		}
+		if closing == nil {
+			return false, ""
+		}
+		closing.Trail = ig
 	case "dangling-end-of-body":
 		// the comment is the last thing in the body of a compound statement that ends before the diagnostic:
 		// no statement follows it in that body, so nothing is in its scope
@@ -211,7 +230,7 @@ func checkC07(replay string) {
 		p  string
 		ws []string
 	}{{"trailing", []string{"in", "prev", "next"}}, {"lead-stmt", []string{"in", "prev", "next"}}, {"lead-compound", []string{"in"}},
-		{"lead-decl", []string{"in", "prev", "next"}}, {"lead-decl-gap", []string{"in", "next"}}, {"file", []string{"in", "other-file"}}, {"package-clause-trailing", []string{"in"}}, {"dangling-end-of-body", []string{"prev"}}} {
+		{"lead-decl", []string{"in", "prev", "next"}}, {"lead-decl-gap", []string{"in", "next"}}, {"file", []string{"in", "other-file"}}, {"package-clause-trailing", []string{"in"}}, {"dangling-end-of-body", []string{"prev"}}, {"trailing-on-closing-line", []string{"in"}}} {
 		for _, w := range pl.ws {
 			placements = append(placements, ignCase{placement: pl.p, where: w})
 		}
